@@ -409,7 +409,7 @@ func main() {
 	c := &h.Ctx{Seed: seed, Tier: tier, Rand: h.NewRand(seed)}
 	c.Driver = h.StartDriver()
 	r := h.NewReport("C19", "cfgcaddy", seed, tier)
-	r.Rule = "sets of `mercure` Caddyfile directives in random order through the real module in process (caddyfile dispenser -> UnmarshalCaddyfile -> Provision with a caddy context; a sample also through the JSON form): anonymous, subscriptions, write_timeout / dispatch_timeout / heartbeat in {unset, 0, valid, unparsable}, publisher_jwt / subscriber_jwt with key in {absent, a placeholder resolving to nothing, HMAC secret (literal or through an {env.…} placeholder), RSA / EC / Ed25519 public PEM} x algorithm in {unset, HS256, HS384, RS256, ES256, EdDSA, RS512, PS256, none, hs256}, publish_origins / cors_origins from a pool of valid and invalid origins, cookie_name, protocol_version_compatibility in {unset, 7, 6, 8, x}, transport in {none (bolt with defaults), `transport local`, `transport bolt { path? bucket_name? size? cleanup_frequency? }`, `transport_url` (local://, bolt:// absolute / relative / without path, unknown scheme; size / cleanup_frequency / bucket_name query parameters), directive and URL together} with sizes and frequencies from pools of well-formed and malformed arguments (leading zeros, 2^64-1, 2^64, signs, underscores, empty, exponent / hex floats); the transport in effect (kind, file, bucket, size, cleanup frequency) is read back, a misspelt directive. The effective options are read back through a white-box accessor and the verification key/algorithm of each role is found by probing; compared with the model. Oracles on the implementation alone: a provisioned hub has a publisher key, and a subscriber key unless anonymous. JWKS URLs need the network: excluded. Non-trivial = configuration that gets past directive parsing; distinct by content."
+	r.Rule = "sets of `mercure` Caddyfile directives in random order through the real module in process (caddyfile dispenser -> UnmarshalCaddyfile -> Provision with a caddy context; a sample also through the JSON form): anonymous, subscriptions, write_timeout / dispatch_timeout / heartbeat in {unset, 0, valid, unparsable}, publisher_jwt / subscriber_jwt with key in {absent, a placeholder resolving to nothing, HMAC secret (literal or through an {env.…} placeholder), RSA / EC / Ed25519 public PEM} x algorithm in {unset, HS256, HS384, RS256, ES256, EdDSA, RS512, PS256, none, hs256}, publish_origins / cors_origins from a pool of valid and invalid origins, cookie_name, protocol_version_compatibility in {unset, 7, 6, 8, x}, transport in {none (bolt with defaults), `transport local`, `transport bolt { path? bucket_name? size? cleanup_frequency? }`, `transport_url` (local://, bolt:// absolute / relative / without path, unknown scheme; size / cleanup_frequency / bucket_name query parameters), directive and URL together} with sizes and frequencies from pools of well-formed and malformed arguments (leading zeros, 2^64-1, 2^64, signs, underscores, empty, exponent / hex floats); the transport in effect (kind, file, bucket, size, cleanup frequency) is read back; for a few provisioned bolt handlers a second handler with other parameters is provisioned on the same file while the first runs (refused, or running with its own parameters), a misspelt directive. The effective options are read back through a white-box accessor and the verification key/algorithm of each role is found by probing; compared with the model. Oracles on the implementation alone: a provisioned hub has a publisher key, and a subscriber key unless anonymous. JWKS URLs need the network: excluded. Non-trivial = configuration that gets past directive parsing; distinct by content."
 	_, hk := key("text")
 	os.Setenv("VERIF_HMAC_KEY", hk)
 	os.Unsetenv("VERIF_UNSET_KEY")
@@ -427,6 +427,7 @@ func main() {
 
 		return &s
 	}
+	secondHandlers := 0
 	for i := 0; i < n; i++ {
 		rr := c.Rand.Fork()
 		cs := cfgCase{Anonymous: rr.Chance(1, 3), Subscriptions: rr.Chance(1, 3), Junk: rr.Chance(1, 10), ViaJSON: rr.Chance(1, 5)}
@@ -594,6 +595,46 @@ func main() {
 			hub.ServeHTTP(w, rq)
 			if !cs.Anonymous && w.status == 200 {
 				r.Violate(h.Violation{Key: "C19:anonymous-subscribers-accepted-although-not-allowed", What: "Caddy configuration without `anonymous` accepts a subscriber with no token:\n" + text, Replay: rp})
+			}
+			// a second handler in the same process on the same database file with other parameters: either it is
+			// refused at start-up (the file is locked) or it runs with ITS parameters — never with the first one's
+			if bt, ok := mercure.VerifHubTransport(hub).(*mercure.BoltTransport); ok && cs.Transport == "bolt" && secondHandlers < c.Scale(6, 60) {
+				secondHandlers++
+				p1, _, sz1, _ := mercure.VerifBoltConfig(bt)
+				wantSize := sz1 + 2
+				text2 := fmt.Sprintf("mercure {\n\tanonymous\n\tpublisher_jwt \"aDiuNYysDgJJAF7U9YqukGjeLbiudJSIDSHf5KkZ\"\n\ttransport bolt {\n\t\tpath %s\n\t\tsize %d\n\t\tbucket_name second\n\t\tcleanup_frequency 1\n\t}\n}", quote(p1), wantSize)
+				m2 := &mcaddy.Mercure{}
+				var err2 error
+				func() {
+					defer func() {
+						if p := recover(); p != nil {
+							err2 = fmt.Errorf("panic: %v", p)
+						}
+					}()
+					if err2 = m2.UnmarshalCaddyfile(caddyfile.NewTestDispenser(text2)); err2 != nil {
+						return
+					}
+					ctx2, cancel2 := caddy.NewContext(caddy.Context{Context: context.Background()})
+					defer cancel2()
+					if err2 = m2.Provision(ctx2); err2 != nil {
+						m2.Cleanup()
+
+						return
+					}
+					if bt2, ok := mercure.VerifHubTransport(mcaddy.VerifHub(m2)).(*mercure.BoltTransport); ok {
+						_, b2, sz2, _ := mercure.VerifBoltConfig(bt2)
+						if sz2 != wantSize || b2 != "second" {
+							r.Violate(h.Violation{Key: "C19:handler-runs-with-another-handlers-transport-parameters",
+								What: fmt.Sprintf("a second handler configured with size %d and bucket \"second\" on the database file of a running handler was provisioned with size %d and bucket %q:\n%s\n--- while this one was running ---\n%s", wantSize, sz2, b2, text2, text), Replay: rp})
+						}
+					}
+					m2.Cleanup()
+				}()
+				if err2 != nil {
+					r.Count("second handler on the same file: refused at start-up")
+				} else {
+					r.Count("second handler on the same file: provisioned")
+				}
 			}
 			m.Cleanup()
 			cancelCtx()
